@@ -96,6 +96,9 @@ func StartWatchdog(limit time.Duration) {
 // RunOne executes body inside a fresh synctest bubble under a fresh Sim.
 func RunOne(t *testing.T, seed uint64, cfg Config, replay []string, strict bool, verbose bool, body func(env *Env) *Violation) (res RunResult) {
 	res.Seed = seed
+	if os.Getenv("VERIF_NO_LOCKYIELD") == "1" {
+		cfg.LockYieldPermille = 0
+	}
 	start := time.Now()
 	watchdogRun.Add(1)
 	var sim *Sim
